@@ -479,6 +479,17 @@ static void generate_minimal_hash(std::vector<std::string> str, Port_Matcher &pm
         return;
     }
     pm.assoc = find_assoc(str, pm.pos);
+    {
+        //find_assoc() is a heuristic, and names which are anagrams of each
+        //other always get the same hash: without a perfect hash, ports
+        //would shadow each other, so fall back to the linear search
+        ivec_t hashed = do_hash(str, pm.pos, pm.assoc);
+        if(count_dups(hashed)) {
+            fprintf(stderr, "rtosc: Failed to generate minimal hash\n");
+            pm.pos.clear();
+            return;
+        }
+    }
     pm.remap = find_remap(str, pm.pos, pm.assoc);
 }
 
